@@ -159,7 +159,7 @@ def build_v_result(wmap, out, diags, vp, wd):
         else:
             parts = target.split('::'); parts[-1] = m['woven_name']; qual = '::'.join(parts)
         vname = 'etherparse::%s::%s' % (modpath_of(m['file']), qual) if m['file'] != 'lib.rs' else 'etherparse::' + qual
-        fns[m['fn'] + '@' + m['file']] = dict(fn=m['fn'], file=m['file'], vname=vname, tags=m['tags'], orig_line=m['orig_line'],
+        fns[m['fn'] + '@' + m['file']] = dict(fn=m['fn'], file=m['file'], vname=vname, tags=m['tags'], orig_line=m['orig_line'], orig_end_line=m.get('orig_end_line', m['orig_line']),
                                               woven=(m.get('woven_start'), m.get('woven_end')), clauses=m.get('clauses', []),
                                               rewrites=m.get('rewrites', {}), contract=m.get('contract'), status='unknown', diags=[], time_us=0,
                                               assumed=m.get('assumed', False))
@@ -237,6 +237,34 @@ def build_v_result(wmap, out, diags, vp, wd):
     return dict(status=status, problems=problems, compile_errors=compile_errors[:40], fns=fns, verified=vr.get('verified', 0),
                 errors=vr.get('errors', 0), smt_s=round(smt_us / 1e6, 3), spec_failed=spec_failed,
                 n_breakdown=len(breakdown), verus_version=(out or {}).get('verus', {}).get('version'))
+
+
+def unsafe_inventory(v):
+    """counts `unsafe` keyword occurrences in the non-test source of the crate and how many sit inside functions under a Verus contract"""
+    import rustlex
+    spans = {}
+    for f in v['fns'].values():
+        if f.get('assumed'): continue
+        spans.setdefault(f['file'], []).append((f['orig_line'], f.get('orig_end_line', f['orig_line'])))
+    total = under = 0
+    outside = {}
+    for p in walk(REPO_SRC, ('.rs',)):
+        rel = os.path.relpath(p, REPO_SRC)
+        text = open(p).read()
+        try:
+            sf = rustlex.SourceFile(text)
+        except Exception:
+            continue
+        tests = [(it.start, it.end) for it in sf.items if it.kind == 'mod' and getattr(it, 'is_test', False)]
+        for t in sf.st:
+            if t.k == 'id' and t.s == 'unsafe':
+                if any(a <= t.a < b for a, b in tests): continue
+                total += 1
+                line = text.count('\n', 0, t.a) + 1
+                if any(a <= line <= b for a, b in spans.get(rel, [])): under += 1
+                else: outside[rel] = outside.get(rel, 0) + 1
+    return {'unsafe_keywords_in_non_test_source': total, 'inside_functions_under_verus_contract': under,
+            'outside': dict(sorted(outside.items(), key=lambda kv: -kv[1])[:40])}
 
 
 # ------------------------------------------------------------------------------------------------
@@ -583,6 +611,14 @@ def decide(prop, tier, seed):
     }
     if v is not None:
         cov['verus'] = {'status': v['status'], 'problems': v['problems'][:20], 'src_hash': v.get('src_hash')}
+        rw = {}
+        for f in v['fns'].values():
+            if prop in f['tags']:
+                for k_, n_ in (f.get('rewrites') or {}).items(): rw[k_] = rw.get(k_, 0) + n_
+        cov['rewrites'] = rw
+        if prop == 'C01':
+            try: cov['unsafe_inventory'] = unsafe_inventory(v)
+            except Exception as e: cov['unsafe_inventory'] = {'error': repr(e)}
     ev = {'property_id': prop, 'tier': tier, 'seed': seed, 'level': level, 'coverage': cov, 'assumptions': assumptions,
           'wall_s': round(time.time() - t0, 2), 'violations': len(unlisted)}
     os.makedirs(os.path.join(VERIF, 'evidence'), exist_ok=True)
